@@ -3,6 +3,7 @@ import itertools
 import random
 import time
 
+from .. import adjust
 from .. import coqterm as ct
 from ..core import Prop
 
@@ -77,10 +78,10 @@ def eq_class(case, tid):
     return ("factory", t["factory"]) if t.get("factory") is not None else ("own", tid)
 
 
-class C04(Prop):
+class C04(adjust.Remember, Prop):
     id = "C04"
     corr_module = "Corr.C04Corr"
-    preds = ("corr", "spec", "guard")
+    preds = ("corr", "spec", "guard", "adj_literal", "adj_classes")
     quick_n = 2400
     thorough_n = 40000
     shard_size = 200
@@ -350,7 +351,7 @@ class C04(Prop):
                       if t.get("factory") is not None])
         rk = obs.get("req_kwargs")
         if rk is None:   # unusable request: an empty, trivially true case
-            return "(mk %s %s [] None true (Ok ([], [])))" % (sigs, eqk)
+            return self.remember(case, "(mk %s %s [] None true (Ok ([], [])))" % (sigs, eqk))
         reqs = ct.lst([ct.pair(self._tree(case, r["task"], [], {}), self._kw(k))
                        for r, k in zip(case["requests"], rk)])
         dt = default_tid(case)
@@ -361,7 +362,7 @@ class C04(Prop):
             log = ct.lst([ct.pair(ct.n(t), self._kw(kw)) for t, kw in obs["ok"]["log"]])
             res = ct.lst([ct.pair(ct.n(t), ct.n(v)) for t, v in obs["ok"]["results"]])
             o = "(Ok (%s, %s))" % (log, res)
-        return "(mk %s %s %s %s %s %s)" % (sigs, eqk, reqs, dflt, ct.b(case["dedupe"]), o)
+        return self.remember(case, "(mk %s %s %s %s %s %s)" % (sigs, eqk, reqs, dflt, ct.b(case["dedupe"]), o))
 
     # ---- classification ----------------------------------------------------------
     def _order(self, case, obs):
@@ -404,15 +405,24 @@ class C04(Prop):
         if not case["dedupe"] or obs.get("req_kwargs") is None:
             return None
         order = self._order(case, obs)
-        found = None
+        lit = fac = False
         for a, b in itertools.combinations(order, 2):
             if a[0] == b[0] and (a[1], a[2]) != (b[1], b[2]):
                 ba, bb = bind(case, a), bind(case, b)
                 if ba is not None and ba == bb:
-                    found = found or "F-C04"
+                    lit = True
             if a[0] != b[0] and eq_class(case, a[0]) == eq_class(case, b[0]) and (a[1], a[2]) == (b[1], b[2]):
-                return "F-C04c"
-        return found
+                fac = True
+        # the judgement itself is made in Coq: the specification with the finding's expectation
+        # substituted must accept the observation
+        v = self.verdicts(case)
+        if lit and v.get("adj_literal"):
+            return "F-C04"
+        if fac and v.get("adj_classes"):
+            return "F-C04c"
+        if lit and fac:
+            return "F-C04c"      # both mechanisms in one session (each is listed; the model agrees)
+        return None
 
     _shrink_t0 = None
 
